@@ -43,7 +43,7 @@ ID = 'C13'
 LEVEL = 'exploration'
 ISOLATE = True
 BUDGET = {'quick': (4, 500), 'thorough': (16, 1500)}
-RULE = ('target cases: class shape or callable kind (29 kinds, generated as source text and '
+RULE = ('target cases: class shape or callable kind (31 kinds, generated as source text and '
         'exec\'ed in real modules) x API (configurable/register/external_configurable) x '
         'decorator form (bare, call, name, name+module, module, dotted name, dotted name+module) '
         'x scope ("" / s / s/t) x Hypothesis-generated signature (0-2 positional, 0-2 defaulted, '
@@ -52,7 +52,7 @@ RULE = ('target cases: class shape or callable kind (29 kinds, generated as sour
         'product on one rich signature (exhaustive), all forms x APIs on four kinds, every '
         'invalid-registration fault x API x target x interactive flag, every interactive exit '
         'kind x API x API. invalid cases: 0-2 prior registrations, then one faulty registration '
-        '(8 bad names, 8 bad modules, a fresh object under an existing full name via 3 spellings, '
+        '(10 bad names / modules incl. two that end in a newline, a fresh object under an existing full name via 3 spellings, '
         'an object -- or Gin\'s wrapper of it -- that is already registered under another name '
         'put under a full name held by a different object, unknown allow/deny names, both '
         'lists). interactive cases: exit in {normal, exception after / before the '
@@ -84,6 +84,11 @@ ASSUMPTIONS = [
     'of it must raise TypeError, as constructing the original does',
     'unknown allow/denylist names are names no signature has (zz, nope, a9); "self" / "cls" count '
     'as parameters of a constructor for Gin\'s list validation and are not generated',
+    'after a rejected registration the object is unknown to Gin (gin.get_bindings(obj) and '
+    'gin.get_configurable(obj) raise) and a valid registration of the same object then works '
+    'like a first registration',
+    'names ending in "\\n" (undotted and dotted) are among the invalid names; the undotted one '
+    'found a defect (rejected only after decoration) that /repo fix 28a88c8 repaired',
     'registering an object inside interactive mode under a name that already exists must succeed '
     'and the name then reaches the newly registered object; what get_configurable(<replaced '
     'object>) returns afterwards is not asserted',
@@ -130,6 +135,10 @@ KINDS = {
     'inherited': (True, 'full', True, False),
     'meta': (True, 'full', True, False),
     'slots': (True, 'full', True, False),
+    # __qualname__ != __name__: nested in another class ('Outer.K'; pickles through the
+    # qualified name) and defined inside a function ('_make.<locals>.K'; does not pickle)
+    'nested': (True, 'full', True, False),
+    'local': (True, 'full', True, False),
     'namedtuple': (True, 'fields', True, False),
     'namedtuple_sub': (True, 'fields', True, False),
     'typing_nt': (True, 'fields', True, False),
@@ -254,6 +263,12 @@ def build_source(kind, sig, doc, tag=False):
             "    inst.meta_calls = getattr(inst, 'meta_calls', 0) + 1\n    return inst\n\n"
             f'class K(metaclass=M):\n{d}{init}')
     extra_none = "def _extra(x):\n  return getattr(x, 'meta_calls', None)\n"
+  elif kind == 'nested':
+    inner = ''.join('  ' + line + '\n' for line in f'class K:\n{d}{init}'.splitlines())
+    body = f'class Outer:\n  TAG = 1\n\n{inner}\nK = Outer.K\n'
+  elif kind == 'local':
+    inner = ''.join('  ' + line + '\n' for line in f'class K:\n{d}{init}'.splitlines())
+    body = f'def _make():\n{inner}  return K\n\nK = _make()\n'
   elif kind == 'slots':
     body = f"class K:\n{d}  __slots__ = ('rec',)\n{init}"
   elif kind in ('namedtuple', 'namedtuple_sub'):
@@ -705,8 +720,17 @@ def check_target(case):
 
 # ----------------------------------------------------------------------------- registry probe
 INVALID_TARGETS = ['fn', 'init', 'new', 'meta', 'namedtuple', 'slots', 'callobj', 'lambda',
-                   'dataclass', 'reg_method', 'cfg_method', 'wrapped_fn']
-BAD_NAMES = ['', '1abc', 'a-b', 'a..b', '.a', 'a.', 'a b', 's/a']
+                   'dataclass', 'reg_method', 'cfg_method', 'wrapped_fn', 'nested']
+# The first two end in a newline (e.g. an unstripped line of a file): a pattern anchored with `$`
+# lets them through, so they can get further into the registration than the other bad names.
+BAD_NAMES = [NM + '\n', DOTTED + '\n', '', '1abc', 'a-b', 'a..b', '.a', 'a.', 'a b', 's/a']
+# Finding fixed in /repo by 28a88c8 (see _known_newline_name_after_decoration): an UNDOTTED name with a trailing
+# newline is refused only after the decoration step, i.e. after gin.configurable has wrapped the
+# class's constructor in place and after register / external_configurable have renamed (and then
+# lost) the registry entries of a class's gin.register'ed methods.  Until IDENTIFIER_RE is anchored
+# with \Z those cells are excluded by construction (the dotted spelling is used instead) and
+# counted under the label 'excluded:newline-name-after-decoration'.  False since the fix: the cells are generated.
+EXCLUDE_NEWLINE_NAME_AFTER_DECORATION = False
 FAULTS = ['bad_name', 'bad_module', 'duplicate', 'duplicate_registered', 'unknown_allow',
           'unknown_deny', 'both_lists']
 DUP_FAULTS = ('duplicate', 'duplicate_registered')
@@ -717,6 +741,9 @@ PRIOR = [('pk.mod', 'f0'), ('pk', 'K1'), ('other', 'nm')]
 def suffixes(name):
   parts = name.split('.')
   return ['.'.join(parts[i:]) for i in range(len(parts))]
+
+
+KNOWN_OBJ = 'known-to-gin'
 
 
 def probe(names, objects):
@@ -732,6 +759,12 @@ def probe(names, objects):
       res['obj:' + label] = gin.get_configurable(o)
     except (ValueError, LookupError):
       res['obj:' + label] = 'unresolved'
+    # does Gin consider the object registered at all?  (get_bindings raises for unknown objects)
+    try:
+      gin.get_bindings(o)
+      res['known:' + label] = KNOWN_OBJ
+    except (ValueError, LookupError):
+      res['known:' + label] = 'unresolved'
   return res
 
 
@@ -800,8 +833,16 @@ def check_invalid(case):
   if fault == 'bad_name':
     name = BAD_NAMES[variant % len(BAD_NAMES)]
     module = [MODNAME, None][(variant // len(BAD_NAMES)) % 2]
+    if (EXCLUDE_NEWLINE_NAME_AFTER_DECORATION and name == NM + '\n' and KINDS[kind][0] and
+        (api == 'configurable' or kind == 'reg_method')):
+      name = DOTTED + '\n'
+      labels.add('excluded:newline-name-after-decoration')
+    if name.endswith('\n'):
+      labels.add('bad-name:trailing-newline')
   elif fault == 'bad_module':
     module = BAD_NAMES[variant % len(BAD_NAMES)]
+    if module.endswith('\n'):
+      labels.add('bad-module:trailing-newline')
     name = NM if not has_name or (variant // len(BAD_NAMES)) % 2 == 0 else None
   elif fault == 'duplicate':
     # an object of the same kind (a different object) is already registered as pk.mod.nm,
@@ -911,6 +952,22 @@ def check_invalid(case):
     require(who == MOD_A, 'rejected-registration-changed-registry',
             f'get_configurable(first holder) now reaches the object of {who}')
   require(not interactive or _interactive_is_off(), 'interactive-mode-not-ended', 'after the block')
+  if fault not in DUP_FAULTS:
+    # nothing was registered, so the very same object can now be registered normally under the
+    # (free) valid name and is reached through name and object like any fresh registration
+    try:
+      do_register(api, 'name_module', obj)
+    except Exception as e:  # pylint: disable=broad-except
+      raise Violation('valid-registration-after-rejected-one-failed', f'{type(e).__name__}: {e}')
+    for how, getter in (('selector', lambda: gin.get_configurable('pk.mod.' + NM)),
+                        ('object', lambda: gin.get_configurable(obj))):
+      try:
+        who = made_by(getter())
+      except (ValueError, LookupError) as e:
+        raise Violation('registry-version-unreachable', f'after the valid registration, {how}: {e}')
+      require(who == MOD_A, 'name-reaches-wrong-object',
+              lambda: f'after the valid registration the {how} reaches the object of {who}')
+    labels.add('valid-registration-after-rejection')
   nt = (kind != 'init' or api != 'configurable') and 'invalid:registry-nonempty' in labels
   if nt:
     labels.add('nontrivial')
@@ -1159,7 +1216,7 @@ def sweep_cells(tier):
 def sweep_forms(tier):
   del tier
   cases = []
-  for kind in ('fn', 'wrapped_fn', 'init', 'meta', 'callobj', 'namedtuple', 'methwrap'):
+  for kind in ('fn', 'wrapped_fn', 'init', 'nested', 'meta', 'callobj', 'namedtuple', 'methwrap'):
     for api, form in itertools.product(APIS, forms_for(kind)):
       sig = norm_sig(kind, RICH_SIG)
       cases.append({'kind': 'target', 'shape': kind, 'api': api, 'form': form, 'scope': 's',
@@ -1175,7 +1232,7 @@ def sweep_invalid(tier):
     # every variant of every fault for plain functions (all APIs) and for the metaclass shape
     # through external_configurable; three variants per fault for the rest
     full = target == 'fn' or (target == 'meta' and api == 'external') or tier == 'thorough'
-    nvar = ({'bad_name': 16, 'bad_module': 16, 'duplicate': 27,
+    nvar = ({'bad_name': 2 * len(BAD_NAMES), 'bad_module': 2 * len(BAD_NAMES), 'duplicate': 27,
              'duplicate_registered': 54}.get(fault, 6) if full else
             (18 if fault == 'duplicate_registered' else 3))
     for variant in range(nvar):
@@ -1203,7 +1260,19 @@ def _known_signature_no_ctor(case, verdict):
           case.get('api') == 'configurable' and verdict.get('kind') == 'configurable-signature')
 
 
-KNOWN = {'configurable_signature_no_ctor': _known_signature_no_ctor}
+def _known_newline_name_after_decoration(case, verdict):
+  """An undotted name ending in a newline passes IDENTIFIER_RE (anchored with `$`) and is only
+  refused by the registry's SelectorMap after decoration: gin.configurable has then wrapped a
+  class's constructor in place, register / external_configurable have then removed the entries
+  of the class's gin.register'ed methods.  Only takes effect if known_findings.json lists it."""
+  return (case.get('kind') == 'invalid' and case.get('fault') == 'bad_name' and
+          int(case.get('variant', 0)) % len(BAD_NAMES) == 0 and
+          verdict.get('kind') in ('rejected-registration-altered-object',
+                                  'rejected-registration-changed-registry'))
+
+
+KNOWN = {'configurable_signature_no_ctor': _known_signature_no_ctor,
+         'newline_name_after_decoration': _known_newline_name_after_decoration}
 
 SWEEPS = {'kind-api-scope': sweep_cells, 'forms': sweep_forms, 'invalid': sweep_invalid,
           'interactive': sweep_interactive}
